@@ -199,6 +199,22 @@ Theorem C15_like_expansion_card : forall (T : Type) (SC : Scalar T) (e : env (T:
 Proof. exact @like_canon_card. Qed.
 Print Assumptions C15_like_expansion_card.
 
+(* "copying cell n and overriding the listed parameters": the keyword groups of
+   "options of the copied card, then the BUT list" are the two group lists one
+   after the other, so the constructed card takes FILL, LAT, TRCL, U, MAT, RHO
+   from the BUT list when it lists them and from the copied card otherwise, and
+   its IMP entries are the copied ones followed by the BUT list's *)
+Theorem C15_expansion_is_override : forall (T : Type) (SC : Scalar T) (e : env (T:=T))
+    (tb to : list string) (gb go : list (group (T:=T))),
+  groups SC e tb = Ok gb -> groups SC e to = Ok go ->
+  groups SC e (tb ++ to)%list = Ok (gb ++ go)%list /\
+  (forall sel, last_with sel (gb ++ go)%list =
+               match last_with sel go with Some g => Some g | None => last_with sel gb end) /\
+  flat_map (@imp_tokens T) (gb ++ go)%list
+  = (flat_map (@imp_tokens T) gb ++ flat_map (@imp_tokens T) go)%list.
+Proof. exact @canon_is_override. Qed.
+Print Assumptions C15_expansion_is_override.
+
 Example C15_example_expansion_card :
   option_map (@card_text)
     (match canon_card RS (xenv 0%R 1%R)
